@@ -183,7 +183,9 @@ def execute(scen, res, log):
     try:
         with contextlib.redirect_stdout(out), contextlib.redirect_stderr(err):
             try:
-                dfu.cli_main()
+                rv = dfu.cli_main()
+                if rv is not None:
+                    raise SystemExit(rv)        # console-script launcher semantics: sys.exit(cli_main())
             except SystemExit as e:
                 if e.code is None or e.code == 0:
                     outcome = 'ok'
